@@ -36,7 +36,7 @@ P = {
  "C06": dict(engine="tla-txn", cat="model_checking", text=TXN_TEXT, note=TXN_NOTE, ref="6 C06",
              tech="TLC invariant UniqueOK on MC_Txn + must-accept/must-reject trace validation"),
  "C07": dict(engine="tla-txn", cat="model_checking", text=TXN_TEXT, note=TXN_NOTE, ref="6 C07",
-             tech="Monitor.tla: each wire notification of the real server judged as the exact difference (TLC trace validation)"),
+             tech="Monitor.tla: each wire notification of the real server judged as the exact difference (TLC trace validation); MonitorGen.tla: TLC checks the judge against constructed notifications"),
  "C08": dict(engine="tla-cond", cat="model_checking", ref="6 C08",
              text="Cond.tla is the RFC 7047 section 5.1 semantics; MC_Cond.tla checks sanity laws (conjunction = intersection, == and != partition) and "
                   "enumerates, per column kind, every (function, argument) against a table holding every value of the kind, 1024 ordered pairs of a "
